@@ -6,6 +6,7 @@ package main
 
 import (
 	"fmt"
+	"math"
 	"strings"
 )
 
@@ -14,6 +15,7 @@ type pgen struct {
 	chaotic bool
 	noRand  bool // exclude $random/$shuffle/$now/$millis (sanctioned variation)
 	noRegex bool
+	exotic  bool // string literals may be exoticString values (only where no model outcome is compared)
 	vars    []string
 }
 
@@ -60,6 +62,9 @@ func (g *pgen) atom() string {
 	case 0, 1:
 		return g.pick(fgNums)
 	case 2:
+		if g.exotic && g.r.chance(1, 2) {
+			return strLit(exoticString(g.r))
+		}
 		return g.pick(fgStrs)
 	case 3:
 		return g.pick([]string{"true", "false", "null"})
@@ -333,6 +338,35 @@ func fullDoc(r *rng, nulls bool) interface{} {
 	}
 	if r.chance(1, 8) {
 		return []interface{}{d, fmt.Sprint(n)}
+	}
+	return d
+}
+
+// fullDocExotic: fullDoc with some of its strings replaced by exoticString values and, sometimes, numbers of unusual
+// magnitude; used where outcomes are not compared with the model (totality, result types, concurrency).
+func fullDocExotic(r *rng, nulls bool) interface{} {
+	d := fullDoc(r, nulls)
+	m, ok := d.(map[string]interface{})
+	if !ok {
+		return d
+	}
+	for _, k := range []string{"a", "k", "s"} {
+		if r.chance(1, 2) {
+			m[k] = exoticString(r)
+		}
+	}
+	if b, ok := m["b"].(map[string]interface{}); ok && r.chance(1, 2) {
+		b["c"] = exoticString(r)
+	}
+	if items, ok := m["items"].([]interface{}); ok {
+		for _, it := range items {
+			if o, ok := it.(map[string]interface{}); ok && r.chance(1, 3) {
+				o["s"] = exoticString(r)
+			}
+		}
+	}
+	if r.chance(1, 3) {
+		m["n"] = []float64{1e15, 9007199254740992, 9223372036854775808, 1e19, 1e21, 1e300, 1e-7, 5e-324, math.Copysign(0, -1), 0.5, 2.5, -1.5, 4294967296, 2147483648}[r.intn(14)]
 	}
 	return d
 }
